@@ -177,9 +177,24 @@ VALUES = {
 }
 
 
+def long_lists(rng):
+    """longer lists in structured orders for the sorting functions (ascending, descending, organ pipe, saw tooth, many equal keys, the
+    classic median-of-three adversary 1, k+1, 3, k+3, ..., 2, 4, 6, ... and seeded random orders)"""
+    out = []
+    for n in (17, 60, 200):
+        k = n // 2
+        out += [list(range(1, n + 1)), list(range(n, 0, -1)), list(range(1, k + 1)) + list(range(k, 0, -1)), [i % 7 for i in range(n)], [i % 2 for i in range(n)],
+                [x for i in range(1, k + 1) for x in [i if i % 2 else k + i - 1]] + [2 * i for i in range(1, k + 1)],
+                [rng.randrange(-50, 50) for _ in range(n)], rng.sample(range(1000), n)]
+    return out
+
+
 def calls(tier, rng):
     out = []
     for fn, ats, rt, tpl, mut in FUNCS:
+        if fn in ("sorted", "sortref"):
+            for lst in long_lists(rng):
+                out.append((fn, ats, rt, tpl, mut, [lst]))
         vals = [(NUMVALS if (fn in NUMFNS and t == "Z") else CHARVALS if (fn in CHARFNS and t == "C") else HEXVALS if fn == "hex2num" else VALUES[t]) for t in ats]
         combos = list(itertools.product(*vals))
         cap = 40 if tier == "quick" else 250
